@@ -345,6 +345,9 @@ enum Case {
     Prec { fmt: u16, sources: Vec<(char, u8)>, n_pragma: usize, corrupt: bool },
     /// (d) dest / src layouts over {P,Q}; dir_mode none|after|before
     Dup { fmt: u16, dest: String, src: String, dir_mode: String, corrupt: bool },
+    /// (e') a texture in an unsupported format number must be rejected by `extract` (no PNG, error exit),
+    /// while the supported entry next to it is still exported
+    ExtractReject { fmt: u16 },
 }
 
 impl Case {
@@ -353,6 +356,7 @@ impl Case {
             Case::Pixel { .. } => "a:pixel", Case::Dims { .. } => "b:dims",
             Case::Verb { .. } | Case::VerbMulti { .. } => "e:verbatim",
             Case::Prec { .. } => "c:precedence", Case::Dup { .. } => "d:duplicates",
+            Case::ExtractReject { .. } => "e':unsupported-format-rejected",
         }
     }
     fn to_json(&self) -> Value {
@@ -366,6 +370,7 @@ impl Case {
             Case::Prec { fmt, sources, n_pragma, corrupt } => json!({"family": "prec", "fmt": fmt, "n_pragma": n_pragma,
                 "sources": sources.iter().map(|(k, m)| json!([k.to_string(), m])).collect::<Vec<_>>(), "corrupt": corrupt}),
             Case::Dup { fmt, dest, src, dir_mode, corrupt } => json!({"family": "dup", "fmt": fmt, "dest": dest, "src": src, "dir_mode": dir_mode, "corrupt": corrupt}),
+            Case::ExtractReject { fmt } => json!({"family": "extract-reject", "fmt": fmt}),
         }
     }
     fn from_json(v: &Value) -> Option<Case> {
@@ -384,6 +389,7 @@ impl Case {
                 sources: v["sources"].as_array()?.iter().map(|i| {
                     let a = i.as_array()?; Some((a.get(0)?.as_str()?.chars().next()?, a.get(1)?.as_u64()? as u8))
                 }).collect::<Option<Vec<_>>>()? },
+            "extract-reject" => Case::ExtractReject { fmt: u("fmt")? },
             "dup" => Case::Dup { fmt: u("fmt")?, dest: s("dest")?, src: s("src")?, dir_mode: s("dir_mode")?, corrupt },
             _ => return None,
         })
@@ -506,14 +512,17 @@ fn compare(expects: &[Expect], got: &[REntry], comparisons: &mut u64) -> Vec<Mis
                     let n = data.len() / b;
                     let mut bad = vec![];
                     let mut count = 0u64;
+                    let mut min_value: Option<String> = None;
                     for p in 0..n {
                         if data[p * b..(p + 1) * b] != t.data[p * b..(p + 1) * b] {
                             count += 1;
+                            let v = px_value(*fmt, data, p);   // fixed width hex: string order == numeric order
+                            if min_value.as_ref().map(|m| v < *m).unwrap_or(true) { min_value = Some(v); }
                             if bad.len() < 8 { bad.push(json!({"index": p, "x": p % (*w as usize), "y": p / (*w as usize), "expected": px_value(*fmt, data, p), "got": px_value(*fmt, &t.data, p)})); }
                         }
                     }
                     let first = bad[0]["expected"].as_str().unwrap_or("").to_string();
-                    out.push(Mis { idx: i, kind: "pixel".into(), info: json!({"label": e.label, "first_value": first, "mismatching_pixels": count, "of": n, "first": bad}) });
+                    out.push(Mis { idx: i, kind: "pixel".into(), info: json!({"label": e.label, "first_value": first, "min_value": min_value, "mismatching_pixels": count, "of": n, "first": bad}) });
                 }
             },
         }
@@ -555,6 +564,7 @@ fn run_case(case: &Case) -> CaseOut {
         Case::Verb { .. } | Case::VerbMulti { .. } => run_verb(case, &mut work, &mut out),
         Case::Prec { fmt, sources, n_pragma, corrupt } => run_prec(case, *fmt, sources, *n_pragma, *corrupt, &mut work, &mut out),
         Case::Dup { fmt, dest, src, dir_mode, corrupt } => run_dup(case, *fmt, dest, src, dir_mode, *corrupt, &mut work, &mut out),
+        Case::ExtractReject { fmt } => run_extract_reject(case, *fmt, &mut work, &mut out),
     }
     out.calls = work.calls;
     out.wall_ms = t0.elapsed().as_millis() as u64;
@@ -562,14 +572,26 @@ fn run_case(case: &Case) -> CaseOut {
 }
 
 /// orig.anm -> decompile -> extract -> compile -i dir -> parsed output
-fn roundtrip_via_dir(work: &mut Work, g: GameV, entries: &[AEntry]) -> Result<Vec<REntry>, StageErr> {
+///
+/// `anm_then_dir`: the README's "recompile and replace images" flow instead: a minimal script (paths only),
+/// `-i orig.anm -i extracted_dir` (metadata incl. offsets/format from the ANM, pixels from the directory).
+fn roundtrip_via_dir(work: &mut Work, g: GameV, entries: &[AEntry], anm_then_dir: bool) -> Result<Vec<REntry>, StageErr> {
     let orig = write_anm(entries, g);
     work.write("orig.anm", &orig);
     let (po, ps, pe, pout) = (work.p("orig.anm"), work.p("a.spec"), work.p("ex"), work.p("out.anm"));
-    let script = stage(work, "decompile", &["truanm", "decompile", "-g", g.name, &po])?;
-    work.write("a.spec", &script);
+    if anm_then_dir {
+        let script: String = entries.iter().map(|e| entry_src(&e.path, "")).collect();
+        work.write("a.spec", script.as_bytes());
+    } else {
+        let script = stage(work, "decompile", &["truanm", "decompile", "-g", g.name, &po])?;
+        work.write("a.spec", &script);
+    }
     stage(work, "extract", &["truanm", "extract", "-g", g.name, &po, "-o", &pe])?;
-    stage(work, "compile", &["truanm", "compile", "-g", g.name, &ps, "-o", &pout, "-i", &pe])?;
+    if anm_then_dir {
+        stage(work, "compile", &["truanm", "compile", "-g", g.name, &ps, "-o", &pout, "-i", &po, "-i", &pe])?;
+    } else {
+        stage(work, "compile", &["truanm", "compile", "-g", g.name, &ps, "-o", &pout, "-i", &pe])?;
+    }
     let bytes = std::fs::read(&pout).map_err(|e| StageErr { kind: "output-missing".into(), stderr: e.to_string() })?;
     read_anm(&bytes, g.old).map_err(|e| StageErr { kind: "output-unreadable".into(), stderr: e })
 }
@@ -585,13 +607,14 @@ fn run_pixel(case: &Case, fmt: u16, set: &str, perm: u32, corrupt: bool, work: &
     let mut expects = vec![Expect { path: e.path.clone(), tex: Some((fmt, w, h, data)), label: format!("{set}/perm{perm}") }];
     if corrupt { corrupt_expect(&mut expects, 0x1234); }
     let name = fmt_name(fmt);
-    match roundtrip_via_dir(work, g, &[e]) {
+    match roundtrip_via_dir(work, g, &[e], false) {
         Err(se) => out.fails.push((format!("C17:pixel:{name}:{}", se.kind), fail_detail(case, &se.kind, &se.stderr, json!(null)))),
         Ok(got) => {
             let mis = compare(&expects, &got, &mut out.comparisons);
             if mis.is_empty() { out.outcomes.push((format!("pixel:{name}:{set}:roundtrip-identical"), 1)); }
             for m in mis {
-                let sig = if m.kind == "pixel" { format!("C17:pixel:{name}:{}", m.info["first_value"].as_str().unwrap_or("?")) }
+                // the smallest failing original pixel value (independent of the arrangement of the values in the texture)
+                let sig = if m.kind == "pixel" { format!("C17:pixel:{name}:{}", m.info["min_value"].as_str().unwrap_or("?")) }
                     else { format!("C17:pixel:{name}:{}", m.kind) };
                 out.fails.push((sig, fail_detail(case, "compare", "", m.info)));
             }
@@ -616,7 +639,7 @@ fn run_dims(case: &Case, g: GameV, fmt: u16, items: &[[u16; 4]], sub: &str, corr
     let mut expects: Vec<Expect> = entries.iter().map(|e| Expect { path: e.path.clone(), tex: Some((fmt, e.w, e.h, e.data.clone())), label: e.path.clone() }).collect();
     if corrupt { corrupt_expect(&mut expects, 1); }
     let offclass = |i: usize| if entries[i].ox != 0 || entries[i].oy != 0 { "off>0" } else { "off=0" };
-    match roundtrip_via_dir(work, g, &entries) {
+    match roundtrip_via_dir(work, g, &entries, sub.contains("anm+dir")) {
         Err(se) => out.fails.push((format!("C17:dims:{name}:{}", se.kind), fail_detail(case, &se.kind, &se.stderr, json!({"item": null})))),
         Ok(got) => {
             let mis = compare(&expects, &got, &mut out.comparisons);
@@ -693,6 +716,33 @@ fn run_verb(case: &Case, work: &mut Work, out: &mut CaseOut) {
                 out.fails.push((format!("C17:verbatim:{label}:{}", m.kind), fail_detail(case, "compare", "", m.info)));
             }
         },
+    }
+}
+
+fn run_extract_reject(case: &Case, fmt: u16, work: &mut Work, out: &mut CaseOut) {
+    let g = game("th12");
+    out.configs = 1;
+    let name = fmt_name(fmt);
+    let es = vec![
+        AEntry::new("x/unknown.png", fmt, 3, 2, 0, 0, pattern(fmt, 3, 2, 1)),
+        AEntry::new("x/known.png", F_GRAY8, 5, 1, 0, 0, pattern(F_GRAY8, 5, 1, 2)),
+    ];
+    work.write("orig.anm", &write_anm(&es, g));
+    let (po, pe) = (work.p("orig.anm"), work.p("ex"));
+    let o = work.cli(&["truanm", "extract", "-g", g.name, &po, "-o", &pe]);
+    let se = clip(&o.stderr);
+    let unknown_written = work.dir.join("ex/x/unknown.png").exists();
+    let known_written = work.dir.join("ex/x/known.png").exists();
+    out.comparisons += 1;
+    let info = json!({"exit": o.status, "unknown_png_written": unknown_written, "known_png_written": known_written});
+    if o.status == -999 {
+        out.fails.push(("machinery:spawn-failed".into(), fail_detail(case, "extract", &se, info)));
+    } else if se.contains("panicked at") {
+        out.fails.push((format!("C17:extract-unsupported-format:{name}:panicked"), fail_detail(case, "extract", &se, info)));
+    } else if unknown_written || o.status == 0 {
+        out.fails.push((format!("C17:extract-unsupported-format:{name}:not-rejected"), fail_detail(case, "extract", &se, info)));
+    } else {
+        out.outcomes.push((format!("extract:{name}:rejected-with-error{}", if known_written { "+others-exported" } else { "" }), 1));
     }
 }
 
@@ -897,7 +947,6 @@ fn gen_cases(thorough: bool) -> Vec<Case> {
     let th12 = "th12".to_string();
 
     // ---- (a) pixel-exhaustive
-    let a0 = cases.len();
     for perm in 0..2 {
         cases.push(Case::Pixel { fmt: F_RGB565, set: "all16".into(), perm, corrupt: false });
         cases.push(Case::Pixel { fmt: F_ARGB4444, set: "all16".into(), perm, corrupt: false });
@@ -905,7 +954,6 @@ fn gen_cases(thorough: bool) -> Vec<Case> {
     cases.push(Case::Pixel { fmt: F_ARGB8888, set: "sweep32".into(), perm: 0, corrupt: false });
     cases.push(Case::Pixel { fmt: F_ARGB8888, set: "bound32".into(), perm: 0, corrupt: false });
     for perm in 0..2 { cases.push(Case::Pixel { fmt: F_GRAY8, set: "all8".into(), perm, corrupt: false }); }
-    let _ = a0;
 
     // ---- (e) verbatim
     let sizes_q: &[(u16, u16)] = &[(1, 1), (3, 5), (7, 20), (27, 25), (64, 64), (105, 100), (256, 1), (1, 256), (257, 3)];
@@ -919,6 +967,7 @@ fn gen_cases(thorough: bool) -> Vec<Case> {
     for &fmt in &fmts_e { for &(w, h) in &sizes { for &(ox, oy) in offs { for script in ["decompiled", "minimal"] {
         // quick: every size with the large offset, and the other offsets with two sizes; thorough: full product
         if !thorough && (ox, oy) != (105, 9) && !matches!((w, h), (3, 5) | (64, 64)) { continue; }
+        if !thorough && matches!((w, h), (3, 5) | (27, 25) | (256, 1) | (1, 256)) && (ox, oy) == (105, 9) { continue; }
         cases.push(Case::Verb { game: th12.clone(), fmt, w, h, ox, oy, rt: "default".into(), script: script.into(), corrupt: false });
     } } } }
     for &fmt in &KNOWN_FORMATS { for script in ["decompiled", "minimal"] {
@@ -931,6 +980,8 @@ fn gen_cases(thorough: bool) -> Vec<Case> {
         cases.push(Case::VerbMulti { order: order.into(), script: script.into(), corrupt: false });
     } }
 
+    for fmt in if thorough { vec![0u16, 2, 4, 6, 8, 0xFFFF] } else { vec![8u16] } { cases.push(Case::ExtractReject { fmt }); }
+
     // ---- (c) precedence: every sequence of 1..=3 sources over {A,D} x {mask 1,2,3}
     let opts: Vec<(char, u8)> = ['A', 'D'].iter().flat_map(|&k| (1u8..=3).map(move |m| (k, m))).collect();
     let mut seqs: Vec<Vec<(char, u8)>> = vec![];
@@ -942,6 +993,7 @@ fn gen_cases(thorough: bool) -> Vec<Case> {
         let fmts: Vec<u16> = if thorough { KNOWN_FORMATS.to_vec() } else if n <= 2 { vec![F_ARGB8888, F_RGB565] } else { vec![F_ARGB8888] };
         for &fmt in &fmts {
             let splits: Vec<usize> = if thorough { (0..=n).collect() } else if n <= 2 && fmt == F_ARGB8888 { vec![0, n] } else { vec![0] };
+            if !thorough && fmt != F_ARGB8888 && seq.iter().any(|s| s.1 != 3) { continue; }  // quick: 2nd format only with full suppliers
             for n_pragma in splits { cases.push(Case::Prec { fmt, sources: seq.clone(), n_pragma, corrupt: false }); }
         }
     }
@@ -964,9 +1016,9 @@ fn gen_cases(thorough: bool) -> Vec<Case> {
     let grid: [u16; 6] = [1, 2, 3, 7, 16, 64];
     let qoff: [u16; 3] = [0, 1, 8];
     for &fmt in &KNOWN_FORMATS { for &w in &grid { for &h in &grid { for &ox in &qoff { for &oy in &qoff {
-        // quick: single-entry files for every size at offset (1,8) and for every offset at size 3x7; the
+        // quick: single-entry files for every offset at size 3x7 and, at offset (1,8), every size (RGB565) / square sizes (others); the
         // whole grid x offsets product is additionally covered by the multi-entry file below.
-        if !thorough && (ox, oy) != (1, 8) && (w, h) != (3, 7) { continue; }
+        if !thorough && (w, h) != (3, 7) && !((ox, oy) == (1, 8) && (fmt == F_RGB565 || w == h)) { continue; }
         cases.push(Case::Dims { game: th12.clone(), fmt, items: vec![[w, h, ox, oy]], sub: "single".into(), corrupt: false });
     } } } } }
     // container versions
@@ -974,13 +1026,16 @@ fn gen_cases(thorough: bool) -> Vec<Case> {
         cases.push(Case::Dims { game: gv.name.into(), fmt, items: vec![[5, 3, 2, 1], [64, 1, 0, 8]], sub: "versions".into(), corrupt: false });
     } }
     // one multi-entry batch per format in quick as well (all grid sizes x offsets in one file)
-    if !thorough {
-        for &fmt in &KNOWN_FORMATS {
-            let mut items = vec![];
-            for &w in &grid { for &h in &grid { for &ox in &qoff { for &oy in &qoff { items.push([w, h, ox, oy]); } } } }
-            cases.push(Case::Dims { game: th12.clone(), fmt, items, sub: "batch".into(), corrupt: false });
-        }
+    for &fmt in &KNOWN_FORMATS {
+        let mut items = vec![];
+        for &w in &grid { for &h in &grid { for &ox in &qoff { for &oy in &qoff { items.push([w, h, ox, oy]); } } } }
+        if !thorough { cases.push(Case::Dims { game: th12.clone(), fmt, items: items.clone(), sub: "batch".into(), corrupt: false }); }
+        // the same grid through the "-i original.anm -i extracted_dir" flow with a paths-only script
+        cases.push(Case::Dims { game: th12.clone(), fmt, items, sub: "batch-anm+dir".into(), corrupt: false });
     }
+    for &fmt in &KNOWN_FORMATS { for it in [[3u16, 7, 1, 8], [64, 64, 0, 0], [1, 1, 8, 8]] {
+        cases.push(Case::Dims { game: th12.clone(), fmt, items: vec![it], sub: "single-anm+dir".into(), corrupt: false });
+    } }
     // thorough: the full product 1..=64 x 1..=64 x 0..=8 x 0..=8 x 4 formats in multi-entry files;
     // offsets of the quick grid first, so that a wall cap leaves a meaningful completed prefix.
     if thorough {
@@ -1045,6 +1100,7 @@ pub fn run(tier: &str) -> Report {
                 match c {
                     Case::Pixel { corrupt, .. } | Case::Dims { corrupt, .. } | Case::Verb { corrupt, .. } | Case::VerbMulti { corrupt, .. }
                     | Case::Prec { corrupt, .. } | Case::Dup { corrupt, .. } => *corrupt = true,
+                    Case::ExtractReject { .. } => {},
                 }
             }
         }
@@ -1107,14 +1163,14 @@ pub fn run(tier: &str) -> Report {
     rep.exhaustive = not_run == 0;
     rep.bound_completed = if thorough {
         "(a) all 65536 values of RGB565 and ARGB4444 (2 arrangements each), all 256 of GRAY8, ARGB8888 channel sweeps (each channel 0..255, others in {00,5A,FF}^3) + {00,01,7F,80,FE,FF}^4; \
-         (b) sizes 1..=64 x 1..=64 x offsets 0..=8 x 0..=8 x 4 formats in multi-entry files, plus the grid {1,2,3,7,16,64}^2 x {0,1,8}^2 as single-entry files, plus 5 other container versions; \
+         (b) sizes 1..=64 x 1..=64 x offsets 0..=8 x 0..=8 x 4 formats in multi-entry files (1024 entries each), plus the grid {1,2,3,7,16,64}^2 x {0,1,8}^2 as single-entry files and through the '-i orig.anm -i dir' flow, plus 5 other container versions; \
          (c) all 258 sequences of <=3 sources over {ANM,dir} x {non-empty subsets of 2 paths} x 4 formats x every pragma/-i split; \
          (d) 9 script layouts (2-3 duplicates, optional interleaved other path) x 12 source layouts (1-3 duplicates) x {no dir, dir after, dir before} x 4 formats; \
          (e) -i file.anm for 10 format numbers x 16 sizes x 3 offsets x {decompiled, minimal} scripts, 6 container versions, multi-entry same/reversed order".into()
     } else {
-        "(a) as thorough (pixel families are exhaustive in both tiers); (b) grid {1,2,3,7,16,64}^2 x offsets {0,1,8}^2 x 4 formats as single-entry files and as one multi-entry file per format, 5 other container versions; \
-         (c) all 258 sequences of <=3 sources (ARGB8888; RGB565 and pragma delivery for <=2 sources); (d) 9 x 12 layouts x {no dir (2 formats), dir after, dir before}; \
-         (e) 6 format numbers x 9 sizes x 3 offsets x 2 scripts, 6 container versions, multi-entry same/reversed order".into()
+        "(a) as thorough (pixel families are exhaustive in both tiers); (b) grid {1,2,3,7,16,64}^2 x offsets {0,1,8}^2 x 4 formats in one multi-entry file per format (decompiled script + '-i dir', and paths-only script + '-i orig.anm -i dir'), single-entry files for every offset at 3x7 and at offset (1,8) every size (RGB565) / square sizes (other formats), 5 other container versions; \
+         (c) all 258 sequences of <=3 sources (ARGB8888; pragma delivery for <=2 sources; RGB565 for <=2 sources supplying both paths); (d) 9 x 12 layouts without a directory (ARGB8888; RGB565 on the layouts without other-path entry), 9 x 3 layouts with a directory after/before; \
+         (e) 5 format numbers x {5 sizes at offset (105,9), 2 sizes at offsets (0,0),(1,8)} x 2 scripts, 6 container versions, multi-entry same/reversed order".into()
     };
     rep.assumptions.push("directory-source PNGs authored by the harness (families c, d) use colours exactly representable in the target format (bit-replicated expansion), so any sane quantisation maps them back to the source value".into());
     rep.assumptions.push("precedence/duplicate scripts pin img_format explicitly and use offset 0, so that only the texture choice (not metadata inheritance) is asserted".into());
